@@ -184,7 +184,7 @@ BOUNDARY = {
     "idlist2": ["a b", "a  b", " a", "a ", "a,b", "*", "a *"],
     "name1": ["*a", "=a", "a*", "a=", "a+,b", "a-,b", "a,b", "a+", "+a", "a b", "a\tb"],
     "cigar1": ["10M", "0M", "1M1M", "1=1X1N1S1H1P", "M", "1", "1m", "1M,", "*", "**", "1*"],
-    "aln2": ["10M", "1=", "1X", "1N", "1S", "1H", "1P", "1,2,3", "1,,2", "1,2,", "0", "*", "1M2"],
+    "aln2": ["10M", "8M2X", "4M2=4M", "1M1S", "2M1N", "1M1H", "1P2M1X", "3D1=", "1=", "1X", "1N", "1S", "1H", "1P", "1,2,3", "1,,2", "1,2,", "0", "*", "1M2"],
 }
 
 
